@@ -63,6 +63,7 @@ def tasks(tier):
         for a in range(len(RED)):
             ts.append(("box3r", a))
     ts.append(("product",))
+    ts.append(("tiny",))
     ts.append(("masked",))
     ts.append(("long",))
     ts.append(("reject",))
@@ -174,6 +175,20 @@ def run_task(task, acc):
                     track = [list(GLOBE[a])] + [list(p) for p in rest]
                     for r in range_cands(track):
                         yield dict(track=track, bbox=["default", None], range_max=r)
+        run_cases(acc, gen(), check_case)
+    elif kind == "tiny":
+        # hops of 5 m .. 200 m at large and small coordinates against hop limits of 1 m .. 1 km (no "same fix" tolerance)
+        def gen():
+            anchors = ((179.9, 60.0), (-179.99, -45.0), (0.0, 0.0), (0.001, 0.0005), (120.0, 89.0), (-75.5, 35.25), (1e-9, 1e-9))
+            steps = ((0.001, 0.0), (0.0, 0.0005), (0.0002, 0.0002), (0.0, 0.0), (-0.0005, 0.00005), (1e-7, 0.0))
+            for a in anchors:
+                for k in (2, 3):
+                    for st in itertools.product(steps, repeat=k - 1):
+                        track = [list(a)]
+                        for dx, dy in st:
+                            track.append([track[-1][0] + dx, track[-1][1] + dy])
+                        for r in (0.0, 1.0, 5.0, 25.0, 50.0, 100.0, 1000.0):
+                            yield dict(track=track, bbox=["default", None], range_max=r)
         run_cases(acc, gen(), check_case)
     elif kind == "product":
         def gen():
